@@ -53,7 +53,8 @@ func TestGenCase(t *testing.T) {
 				t.Errorf("side B still extends")
 			}
 		case "import-vs-local":
-			if !strings.Contains(a.A.Files[a.A.Root], "{% import ") || strings.Contains(a.B.Files[a.B.Root], "{% import ") {
+			// side B declares the macros itself (it may still import the library's own dependency)
+			if !strings.Contains(a.A.Files[a.A.Root], "{% import ") || !strings.Contains(a.B.Files[a.B.Root], "{% macro ") || strings.Contains(a.A.Files[a.A.Root], "{% macro ") {
 				t.Errorf("import-vs-local sides wrong")
 			}
 		}
